@@ -465,9 +465,34 @@ func (x *exec) pageSession(b *builder, q *Query, sr *sessResult, maxPages int) {
 			sr.panicv = r
 		}
 	}()
+	// Every other session pages like an in-process caller does: one
+	// Constraint value for all its requests, and a first, partial traversal
+	// (two pages, thrown away) before the one that is judged. A query must
+	// not leave anything behind in the caller's constraint.
+	var shared *search.Constraint
+	if sr.op%2 == 1 {
+		shared = b.constraint(q.C)
+		tok := ""
+		for p := 0; p < 2; p++ {
+			sq := b.query(q)
+			sq.Constraint, sq.Continue = shared, tok
+			a := x.ask(sq)
+			if a.panicv != nil || a.err != nil || a.cont == "" {
+				break
+			}
+			tok = a.cont
+			simcore.Yield("page")
+		}
+		x.srcMu.Lock()
+		x.out.Reached["constraint-value-reused-across-traversals"]++
+		x.srcMu.Unlock()
+	}
 	token := ""
 	for p := 0; p < maxPages; p++ {
 		sq := b.query(q)
+		if shared != nil {
+			sq.Constraint = shared
+		}
 		sq.Continue = token
 		a := x.ask(sq)
 		if a.panicv != nil {
